@@ -14,7 +14,7 @@ import explore
 from harness import HARNESSES, ConcCtx, show
 import registry
 
-PROP_MODULES = ['props_front', 'props_pipe', 'props_list', 'props_time']
+PROP_MODULES = ['props_front', 'props_pipe', 'props_list', 'props_time', 'props_cli']
 
 
 def log(*a):
@@ -37,6 +37,8 @@ def load_known():
 
 def native_replay(rec, paths, profile='dev'):
     nat = implmod.NativeImpl(paths['native_dev' if profile == 'dev' else 'native_rel'])
+    import cli
+    nat.cli = cli.NativeCli(paths['cli_bin'])
     try:
         return explore.native_replay(rec['harness'], rec['params'], rec['values'], nat)
     finally:
@@ -99,7 +101,7 @@ def main():
         return 2
 
     deadline = spec.get('deadline', {}).get(a.tier, 170 if a.tier == 'quick' else 2400)
-    init_args = (paths['mir'], paths['repo'], paths['src'], paths['native_dev'], PROP_MODULES_PRESENT(), [k['role'] for k in known])
+    init_args = (paths['mir'], paths['repo'], paths['src'], paths['native_dev'], PROP_MODULES_PRESENT(), [k['role'] for k in known], paths if spec.get('cli') else None)
     states, funcs_hit, models_hit = explore.run_jobs(jobs, init_args, nworkers=a.workers, deadline_s=deadline,
                                                      validate_every=spec.get('validate_every', {}).get(a.tier, 20), seed=seed, log=log)
 
